@@ -943,10 +943,11 @@ impl TypeLayout {
     }
 
     pub fn assume_type_of_self(self, user_data: &AssocFileData) -> TypeLayout {
-        if self.is_class_self() {
-            TypeLayout::Class(user_data.get_type_of_executing_class().unwrap().clone())
-        } else {
-            self
+        // outside a class there is no class to assume: `Self` stays what it is and the lookup on it
+        // is reported as an ordinary error
+        match user_data.get_type_of_executing_class() {
+            Some(class_type) if self.is_class_self() => TypeLayout::Class(class_type.clone()),
+            _ => self,
         }
     }
 
